@@ -8,6 +8,7 @@ from vsym.core import choose, mk_bool
 from .pinmods import P
 
 PROPERTY = 'C13'
+PYTHON_O = ['iso0/clear', 'iso4/clear/random-supplied', 'iso0/tdes']      # obligations that are also explored with the modules compiled as under python -O
 TECHNIQUE = 'the real pinblock functions executed on strings of 4-bit-vector characters (z3 QF_BV + uninterpreted cipher); one solver query per assertion over all digit/nibble values; lengths enumerated'
 ASSUMPTIONS = [
     'PIN length 4..12 and PAN length 13..19 are enumerated (every pair), every digit value is symbolic (4-bit vectors constrained to 0..9)',
